@@ -63,6 +63,7 @@ class World:
             self.ids[id(n)] = i
         self.ucat = [i for i, p in enumerate(pool) if p.get("cat")]
         self.autos = []          # automatically inserted Concat objects (kept alive)
+        self.vars, self.vterms = [], []   # let-bound models (None once a construction raised) and their Gallina terms
 
     def nid(self, obj):
         return self.ids[id(obj)]
@@ -102,6 +103,8 @@ def build(t, W):
     k = t[0]
     if k == "n":
         return W.objs[t[1]], "(ENode %d)" % t[1]
+    if k == "v":     # a let-bound operand model, reused: the model inlines its (immutable) denotation
+        return W.vars[t[1]], W.vterms[t[1]]
 
     def construct(thunk, operands):
         if any(o is None for o in operands):
@@ -222,15 +225,19 @@ def corner_cases():
     return cases
 
 
+def _leaf(rng, n, st):
+    if st["next"] < n and rng.random() < 0.7:
+        st["next"] += 1
+        return ["n", st["next"] - 1]
+    return ["n", rng.randrange(n)]
+
+
 def gen_tree(rng, n, depth, top=True, st=None):
     """random expression over nodes 0..n-1; leaves prefer not-yet-used nodes (otherwise most expressions are cyclic)"""
     st = st if st is not None else {"next": 0}
 
     def leaf():
-        if st["next"] < n and rng.random() < 0.7:
-            st["next"] += 1
-            return ["n", st["next"] - 1]
-        return ["n", rng.randrange(n)]
+        return _leaf(rng, n, st)
     if not top and (depth == 0 or rng.random() < 0.35):
         return leaf()
     r = rng.random()
@@ -248,6 +255,115 @@ def gen_tree(rng, n, depth, top=True, st=None):
     if r < 0.88 or a[0] == "n":
         return ["and", a, b]
     return ["iand", a, b]
+
+
+
+# ------------------------------------------------------------------------------------------ sharing (reused operand models)
+def inline(t, defs):
+    """variable-free tree: every reference ["v", j] replaced by the (already inlined) current definition of variable j"""
+    k = t[0]
+    if k == "v":
+        return defs[t[1]]
+    if k in ("n", "graph"):
+        return t
+    if k == "link":
+        return ["link", [inline(x, defs) for x in t[1]], [inline(x, defs) for x in t[2]], t[3], t[4]]
+    return [k, inline(t[1], defs), inline(t[2], defs)]
+
+
+def _sets(obs):
+    return None if obs is None else {"nodes": sorted(set(obs["order"])), "edges": sorted(set(map(tuple, obs["edges"]))),
+                                     "ins": sorted(set(obs["ins"])), "outs": sorted(set(obs["outs"]))}
+
+
+def run_share(c):
+    """lets: models bound to variables; uses: later expressions reusing them (left / right operand of >>, list member,
+    operand of & and of &=).  `v &= e` as a statement (["iand", ["v", j], e]) legitimately updates variable j in place.
+    Returns (W, parts, vars) with parts = [(label, variable-free tree, Gallina term, observation)], one per use and one per
+    variable re-observed at the very end; vars = [(j, observation when last bound, observation at the end)]."""
+    W = World(c["pool"])
+    defs, base, parts = [], [], []
+    for t in c["lets"]:
+        m, term = build(t, W)
+        W.vars.append(m)
+        W.vterms.append(term)
+        defs.append(inline(t, defs))
+        base.append(None if m is None else W.observe(m))
+    for i, t in enumerate(c["uses"]):
+        tree = inline(t, defs)
+        m, term = build(t, W)
+        obs = None if m is None else W.observe(m)
+        parts.append(("use%d" % i, tree, term, obs))
+        if t[0] == "iand" and t[1][0] == "v":           # in-place update of the variable (dead if the update raised)
+            j = t[1][1]
+            W.vars[j], W.vterms[j], defs[j], base[j] = m, term, tree, obs
+    finals = []
+    for j, m in enumerate(W.vars):
+        if m is None:
+            continue
+        obs = W.observe(m)
+        parts.append(("var%d" % j, defs[j], W.vterms[j], obs))
+        finals.append((j, base[j], obs))
+    return W, parts, finals
+
+
+def _judge_share(c):
+    try:
+        W, parts, finals = run_share(c)
+    except Exception as e:
+        return _viol("exception:%s" % type(e).__name__, "valid sharing scenario raises %r" % (e,), c)
+    for j, before, after in finals:
+        if _sets(before) != _sets(after):
+            return _viol("sharing:operand-mutated",
+                         "a model reused as an operand of later link / merge expressions is no longer the graph it was "
+                         "(variable %d)" % j, c, _sets(before), _sets(after))
+    for label, tree, term, obs in parts:
+        v = _check_model(c, tree, W, None if obs is None else True, obs)
+        if v:
+            v["what"] += " [%s of a scenario reusing operand models]" % label
+            return v
+    return None
+
+
+def share_cases(rng, count):
+    out = []
+    for _ in range(count):
+        n = rng.randint(4, 10)
+        st = {"next": 0}
+        leaf = lambda: _leaf(rng, n, st)
+        lets = [gen_tree(rng, n, rng.randint(1, 2), True, st)]
+        if rng.random() < 0.5:
+            t = gen_tree(rng, n, 1, True, st)
+            lets.append(["link", [["v", 0]], [t], False, False] if rng.random() < 0.5 else t)
+        uses = []
+        for _u in range(rng.randint(2, 4)):
+            v = ["v", rng.randrange(len(lets))]
+            sub = lambda: gen_tree(rng, n, 1, True, st) if rng.random() < 0.4 else leaf()
+            r = rng.randrange(9)
+            if r <= 1:
+                uses.append(["link", [v], [sub()], False, False])               # left operand of >>
+            elif r == 2:
+                uses.append(["link", [sub()], [v], False, False])               # right operand of >>
+            elif r == 3:
+                uses.append(["link", [v, leaf()], [sub()], True, False])        # member of a list on the left
+            elif r == 4:
+                uses.append(["link", [leaf()], [leaf(), v], False, True])       # member of a list on the right
+            elif r == 5:
+                uses.append(["and", v, sub()])
+            elif r == 6:
+                uses.append(["and", sub(), v])
+            elif r == 7:
+                uses.append(["iand", v, sub()])                                 # v &= e : updates the variable
+            else:
+                uses.append(["iand", gen_tree(rng, n, 1, True, st), v])        # operand of &= on the right
+        out.append({"kind": "share", "pool": pool_of(rng, n, cats=0.05), "lets": lets, "uses": uses})
+    # the lead's pattern: one trunk, two successive left-operand links, then a many-to-one link with a model on the right
+    p = [{"name": x, "cat": False} for x in ("src", "res", "read1", "read2", "probe")]
+    N = lambda i: ["n", i]
+    out.append({"kind": "share", "pool": p, "lets": [["link", [N(0)], [N(1)], False, False]],
+                "uses": [["link", [["v", 0]], [N(2)], False, False], ["link", [["v", 0]], [N(3)], False, False],
+                         ["link", [["v", 0], N(2)], [["link", [N(3)], [N(4)], False, False]], True, False]]})
+    return out
 
 
 def expr_cases(rng, count):
@@ -297,12 +413,19 @@ def _viol(key, what, c, expected=None, observed=None):
 
 
 def _judge(c):
-    import networkx as nx
+    if c.get("kind") == "share":
+        return _judge_share(c)
     try:
         W, m, term, obs = run_impl(c)
     except Exception as e:
         return _viol("exception:%s" % type(e).__name__, "valid expression raises %r" % (e,), c)
-    V, E = ref_eval(c["expr"])
+    return _check_model(c, c["expr"], W, m, obs)
+
+
+def _check_model(c, tree, W, m, obs):
+    """the property's statement for one built model (obs) against the plain digraph denoted by the variable-free tree"""
+    import networkx as nx
+    V, E = ref_eval(tree)
     G = nx.DiGraph()
     G.add_nodes_from(V)
     G.add_edges_from(E)
@@ -482,7 +605,7 @@ def law_cases(rng, count):
 
 def judge(case):
     c = case["scenario"]
-    return _judge_law(c) if c.get("kind") == "law" else _judge(c)
+    return _judge_law(c) if c.get("kind") == "law" else _judge(c)      # _judge dispatches kind == "share"
 
 
 def nontrivial(c, obs, ref):
@@ -501,7 +624,24 @@ def nontrivial(c, obs, ref):
 
 def correspondence(ctx):
     cases = all_cases(ctx, "corr")
+    shares = share_cases(ctx.rng("corr-share"), ctx.n(150, 1500))
     terms, keep, dist, nt = [], [], {}, set()
+    for c in shares:
+        try:
+            W, parts, finals = run_share(c)
+        except Exception as e:
+            terms.append("false")
+            keep.append({"scenario": jsonable(c), "impl_error": repr(e)})
+            continue
+        for label, tree, term, obs in parts:
+            terms.append(to_coq(c, W, term, obs))
+            keep.append({"scenario": jsonable(c), "part": label,
+                         "observed": obs if obs is not None else "RuntimeError: Model has a cycle",
+                         "term": terms[-1] if len(terms[-1]) < 600 else terms[-1][:600] + "..."})
+            k = "share:" + label[:3] + (":cycle" if obs is None else ":ok")
+            dist[k] = dist.get(k, 0) + 1
+            if label.startswith("use") and nontrivial(c, obs, ref_eval(tree)):
+                nt.add(json.dumps([[p["cat"] for p in c["pool"]], c["lets"], c["uses"]]))
     for c in cases:
         try:
             W, m, term, obs = run_impl(c)
@@ -522,12 +662,14 @@ def correspondence(ctx):
         return {"evaluations": len(cases), "distinct_nontrivial": len(nt), "rule": "", "samples": keep[:3], "failing": [],
                 "error": "cannot build run/RunC03.v (%s):\n%s" % (failed, log[-1500:])}
     failing, err = core.run_cases(ctx.pid, IMPORTS, terms, chunk=400)
-    return {"evaluations": len(cases), "distinct_nontrivial": len(nt),
-            "rule": "every labelled digraph without self-loops and with >=1 edge on 2-3 nodes (quick) / 1-4 nodes + a 5-node sample "
+    return {"evaluations": len(terms), "distinct_nontrivial": len(nt),
+            "rule": "sharing scenarios: 1-2 let-bound models reused by 2-4 later expressions (left/right operand of >>, list "
+                    "member, operand of & and &=; `v &= e` updates v), every use AND every variable re-observed at the end "
+                    "compared with the model's eval of the inlined expression; every labelled digraph without self-loops and with >=1 edge on 2-3 nodes (quick) / 1-4 nodes + a 5-node sample "
                     "(thorough), each built twice: Model(nodes, edges) and as merged 1-to-1 links (& / &=); hand-written corner "
                     "cases; random expressions over 2-10 nodes with >>, link on lists, &, &= and user Concat nodes.  Non-trivial = "
                     "the denoted graph has an edge and is cyclic, has a fan-in or has two levels; distinct by (Concat flags, tree)",
-            "samples": [keep[5], keep[len(keep) // 2], keep[-1]],
+            "samples": [keep[5], keep[3 * len(keep) // 4], keep[-1]],
             "distribution": dist, "tolerance": "exact (sets of ids)",
             "failing": [dict(keep[i], index=i) for i in failing], "error": err}
 
@@ -540,7 +682,7 @@ def oracle(ctx, scale=1):
         cases = graph_cases(rng, [2, 3]) + corner_cases() + expr_cases(rng, 300 * scale)
     laws = law_cases(rng, ctx.n(150, 1500) * scale)
     out, dist = [], {}
-    cases = [c for c in cases if not c.get("corr_only")]
+    cases = [c for c in cases if not c.get("corr_only")] + share_cases(ctx.rng("oracle-share"), ctx.n(150, 1500) * scale)
     for c in cases:
         v = _judge(c)
         if v:
@@ -553,7 +695,8 @@ def oracle(ctx, scale=1):
     return {"evaluations": len(cases) + len(laws), "violations": out, "distribution": dist,
             "rule": "networkx acyclicity of the denoted plain digraph vs RuntimeError; operand nodes once; predecessors received "
                     "through inserted Concats == denoted predecessors, each once; entries/exits; topological order; "
-                    "isomorphism up to Concat names for (a>>b)>>c vs a>>(b>>c) (disjoint operands), a&b vs b&a, m&m vs m"}
+                    "reused operand models unchanged (nodes, edges, entries, exits as sets) and every expression reusing them "
+                    "denoting the plain graph of the inlined expression; isomorphism up to Concat names for (a>>b)>>c vs a>>(b>>c) (disjoint operands), a&b vs b&a, m&m vs m"}
 
 
 def replay(payload):
